@@ -69,6 +69,16 @@ impl Config {
 /// The library entry point, driven with the options the README and `--help`
 /// document for the equivalent flags (child process: `verif-sim gen-lib ...`).
 pub fn gen_lib_main(args: &[String]) -> i32 {
+    // a build script may generate several definitions in one process: every group of
+    // arguments separated by "--then" is one generation; the last one is the one compared
+    let mut rc = 0;
+    for group in args.split(|a| a == "--then") {
+        rc = gen_lib_once(group);
+    }
+    rc
+}
+
+fn gen_lib_once(args: &[String]) -> i32 {
     let mut cfg = conjure_codegen::Config::new();
     let mut product_name: Option<String> = None;
     let mut product_version: Option<String> = None;
@@ -587,6 +597,9 @@ impl Engine for GenEngine {
             let out_arg = if rel_out { out_rel.clone() } else { out_abs.to_string_lossy().to_string() };
             let noise: Vec<(String, String)> = (0..ctx.draw(4)).map(|i| (format!("NOISE_{}", i), format!("{}", ctx.draw(1 << 30)))).collect();
             let before = list_tree(&root, &out_abs);
+            let _ = std::fs::create_dir_all(xdir.join("warmup-out"));
+            let warm = !use_cli && ctx.chance(1, 2);
+            let warm_out = xdir.join("warmup-out");
             let mut cmd = if use_cli {
                 let mut c = Command::new(std::env::var("VERIF_CLI").unwrap_or_else(|_| CLI.to_string()));
                 c.args(cfg.cli_args());
@@ -594,6 +607,21 @@ impl Engine for GenEngine {
             } else {
                 let mut c = Command::new(&self_exe);
                 c.arg("gen-lib");
+                if warm {
+                    // an earlier generation in the same process (as conjure-test's build script does):
+                    // same definition, another drawn configuration, its own output directory
+                    let wcfg = Config {
+                        exhaustive: ctx.with_tape(|t| *t.pick(&[None, Some(true), Some(false)])),
+                        serialize_empty: ctx.with_tape(|t| *t.pick(&[None, Some(true), Some(false)])),
+                        strip_prefix: if ctx.chance(1, 2) { Some(ctx.with_tape(|t| t.pick(&prefixes).to_string())) } else { None },
+                        product: if ctx.chance(1, 3) { Some(("other-product".to_string(), "9.9.9".to_string())) } else { None },
+                        crate_version: None,
+                    };
+                    c.args(wcfg.cli_args());
+                    c.arg(root.join("in/ir.json")).arg(&warm_out);
+                    c.arg("--then");
+                    ctx.count("fault.earlier_generation_in_same_process");
+                }
                 c.args(cfg.cli_args());
                 c
             };
@@ -614,7 +642,7 @@ impl Engine for GenEngine {
             let label = format!(
                 "x{} entry={} hash_seed={} clock={} out={:?}{} noise={}",
                 x,
-                if use_cli { "cli" } else { "lib" },
+                if use_cli { "cli" } else if warm { "lib-after-earlier-generation" } else { "lib" },
                 hash_seed,
                 clock,
                 out_arg.replace(&*root.to_string_lossy(), "$SANDBOX"),
@@ -642,6 +670,8 @@ impl Engine for GenEngine {
                 .filter(|p| !before.contains(p))
                 // the ancestors of the requested output directory have to be created
                 .filter(|p| !out_abs.starts_with(Path::new(p.as_str())))
+                // the earlier generation's own output directory
+                .filter(|p| !Path::new(p.as_str()).starts_with(&warm_out))
                 .map(|p| p.replace(&*root.to_string_lossy(), "$SANDBOX"))
                 .collect();
             let tree = read_tree(&out_abs);
